@@ -154,7 +154,7 @@ def norm_tok(h):
     b = bytes.fromhex(h)
     if not b.startswith(b'"'): return h
     t = c_unescape(b[1:-1].decode('latin-1'))
-    return 'S:' + ' '.join(re.findall(r'"(?:\\.|[^"\\])*"|\'(?:\\.|[^\'\\])*\'|[A-Za-z0-9_.]+|\s|\S', t)).replace('  ', ' ')
+    return 'S:' + ' '.join(re.findall(r'"(?:\\.|[^"\\])*"|\'(?:\\.|[^\'\\])*\'|[A-Za-z0-9_.]+|\S', t))
 
 def toks_from_dump(out):
     r = []
